@@ -230,8 +230,15 @@ class MultiTierCache(Entity):
                 if hasattr(tier, "invalidate"):
                     tier.invalidate(key)
 
-            # Write to L1
-            yield from self._tiers[0].put(key, value)
+            # Update L1. The value is already in the backing store (written
+            # above): going through L1.put() would write it there a second time
+            # one write latency later, and that late write can land after a
+            # newer put's write and roll the backing store back.
+            l1 = self._tiers[0]
+            if hasattr(l1, "_cache_put"):
+                l1._cache_put(key, value)
+            else:
+                yield from l1.put(key, value)
 
     def delete(self, key: str) -> Generator[float, None, bool]:
         """Delete a key from all tiers and backing store.
